@@ -402,6 +402,36 @@ func (l *Lexer) scanCommodityOrText() Token {
 	return l.scanText()
 }
 
+// rescanFrom moves the lexer back to the start of a token it has already
+// produced. The lexer classifies a token by its first characters alone; the
+// parser uses this when the line context decides what the text really is.
+func (l *Lexer) rescanFrom(pos Position) {
+	l.pos = pos.Offset
+	l.line = pos.Line
+	l.column = pos.Column
+	l.atStart = false
+}
+
+// RescanAsText re-reads the input from pos as free text (a transaction
+// description or note), up to a comment, a "|" or the end of the line.
+func (l *Lexer) RescanAsText(pos Position) Token {
+	l.rescanFrom(pos)
+	return l.scanText()
+}
+
+// RescanAsCode re-reads the input from pos, which must be a "(", as a
+// transaction code.
+func (l *Lexer) RescanAsCode(pos Position) Token {
+	l.rescanFrom(pos)
+	return l.scanCode()
+}
+
+// RescanAsDate re-reads the input from pos as a date.
+func (l *Lexer) RescanAsDate(pos Position) Token {
+	l.rescanFrom(pos)
+	return l.scanDate()
+}
+
 func (l *Lexer) scanText() Token {
 	start := l.pos
 	startPos := l.position()
